@@ -277,6 +277,25 @@ def run_c07(tier, seed, replay=None):
         c = mk_case([spin, count], ["q"], body, maxans=maxans, budget=budget, expect_values=vals)
         c["maxans"], c["budget"] = maxans, budget
         cases.append(c)
+    # a closure-style relation whose body is SEVERAL goals with the recursive call first: the conjunction suspends it, so as a
+    # branch of a disjunction it leaves the other branches their turns
+    spin2 = ["def", "spin2", ["params", "x"], "closure", ["conj", ["call", "spin2", "x"], ["eq", "x", 0]]]
+    spin3 = ["def", "spin3", ["params", "x"], "closure", ["conj", ["call", "spin3", "x"], ["call", "spin3", "x"], ["eq", "x", 0]]]
+    # ... and the same written as an inline closure { rec(x), x == 0 } block (the relation itself is direct-style)
+    spin4 = ["def", "spin4", ["params", "x"], "direct", ["closure", ["call", "spin4", "x"], ["eq", "x", 0]]]
+    for _ in range(max(8, n // 10)):
+        v = rnd.randint(1, 9)
+        silent = rnd.choice([["call", "spin2", "q"], ["call", "spin3", "q"], ["closure", ["call", "spin2", "q"], ["eq", "q", 0]],
+                             ["call", "spin4", "q"], ["call", "spin4", "q"]])
+        branches = [silent, ["eq", "q", v]]
+        if rnd.random() < 0.5:
+            branches.reverse()
+        if rnd.random() < 0.4:
+            branches.append(["cond", ["eq", "q", v + 10], silent])
+        exp = [v] + ([v + 10] if len(branches) == 3 else [])
+        c = mk_case([spin, count, spin2, spin3, spin4], ["q"], [["cond"] + branches], maxans=len(exp), budget=3000, expect_values=exp)
+        c["maxans"], c["budget"] = len(exp), 3000
+        cases.append(c)
     # loop { g } is the fair disjunction "g or loop { g }": with a body that yields an answer and then runs forever, the
     # later rounds must still be started and deliver the answer again and again
     for _ in range(n // 3):
